@@ -1020,9 +1020,20 @@ def truth_hook(rt, v):
     return rt.truth_hooks.get(type(v).__name__)
 
 
+LOGGER_NOOPS = ("debug", "info", "warning", "warn", "error", "exception", "critical", "log", "setLevel", "addHandler")
+
+
 def callable_hook(rt, fn):
     if isinstance(fn, TypeObj):
         return lambda interp, f, args, kwargs: rt.builtins["__type_ctor__" + fn.name].fn(interp, args, kwargs)
+    if isinstance(fn, Opaque) and fn.name.startswith("logger."):
+        # methods of a logging.getLogger() object, whatever the module calls it: emitting a record is a no-op for the
+        # properties (DESIGN 2.2; the arguments have been evaluated by the call), isEnabledFor is False as for `LOG`
+        meth = fn.name.split(".", 1)[1]
+        if meth in LOGGER_NOOPS:
+            return lambda interp, f, args, kwargs: None
+        if meth == "isEnabledFor":
+            return lambda interp, f, args, kwargs: False
     return rt.call_hooks.get(type(fn).__name__)
 
 
